@@ -297,6 +297,61 @@ func runC17(c *Ctx) {
 			}
 		}
 	}
+	if !okOrder && main != nil && ctxLoop != nil && chainLoop != nil {
+		// the same, without a flag variable: a branch on the matched context's override field whose true side
+		// returns without reaching the chain-level loop, and which every path from 'context found' to the
+		// chain-level loop passes
+		isOv := func(x *X) bool {
+			x = strip(x)
+			return x != nil && x.Op == "field" && x.Name == "override" && fieldOwner(x) == "ctxExtendedInfo"
+		}
+		var ovIf *ssa.If
+		var ovTrue *ssa.BasicBlock
+		var found *ssa.BasicBlock
+		for _, b := range fn.Blocks {
+			iff, ok := b.Instrs[len(b.Instrs)-1].(*ssa.If)
+			if !ok {
+				continue
+			}
+			cx, v := normFact(c.E(iff.Cond), true)
+			if isOv(cx) {
+				ovIf = iff
+				ovTrue = b.Succs[0]
+				if !v {
+					ovTrue = b.Succs[1]
+				}
+			}
+			if _, m := Match(Extract("1", Op("lookup", "", Field("ctxExtended", Any()))), cx); m {
+				found = b.Succs[0]
+				if !v {
+					found = b.Succs[1]
+				}
+			}
+		}
+		if ovIf != nil && found != nil {
+			chainB := chainLoop.app.Block()
+			returnsOnly := !ReachableFrom(ovTrue)[chainB]
+			// reachability from 'found' to the chain loop with the override branch removed
+			seen := map[*ssa.BasicBlock]bool{ovIf.Block(): true}
+			var rec func(b *ssa.BasicBlock)
+			rec = func(b *ssa.BasicBlock) {
+				if seen[b] {
+					return
+				}
+				seen[b] = true
+				for _, s := range b.Succs {
+					rec(s)
+				}
+			}
+			rec(found)
+			okOrder = returnsOnly && !seen[chainB] && found != ovIf.Block() &&
+				orderedBefore(main, ctxLoop.app) && orderedBefore(main, chainLoop.app) && !MayFollow(chainLoop.app, ctxLoop.app) &&
+				!ReachableFrom(ovTrue)[ctxLoop.app.Block()] && ReachableFrom(ctxLoop.app.Block())[ovIf.Block()]
+			if okOrder {
+				c.OK("C17.G3-order", f.Name+" › override comes from the matching context", ovIf.Pos(), "the override return is controlled by the matched context's override flag")
+			}
+		}
+	}
 	c.Check(okOrder, "C17.G3-order", f.Name+" › main ≺ context-level ≺ override return ≺ chain-level", fn.Pos(), "results are appended in the specified order and chain-level entries only without override", "expansion order broken (main, context-level, [override ⇒ stop], chain-level)")
 	c.Floor("C17.G3-order", 3)
 
